@@ -4,11 +4,8 @@ package allocator
 
 import (
 	"fmt"
-	"math"
 	"math/big"
 	"net"
-	"reflect"
-	"sort"
 	"strings"
 	"testing"
 
@@ -16,81 +13,11 @@ import (
 	"go.universe.tf/metallb/internal/config"
 	"go.universe.tf/metallb/internal/ipfamily"
 	corev1 "k8s.io/api/core/v1"
-	metav1 "k8s.io/apimachinery/pkg/apis/meta/v1"
 	"k8s.io/apimachinery/pkg/labels"
 	"k8s.io/utils/ptr"
 )
 
 // ---------------------------------------------------------------- universe
-
-var allocBlocksSmall = []string{
-	"10.0.0.0/30", "10.0.0.4/31", "10.0.0.8-10.0.0.10", "10.0.1.254-10.0.2.1", "10.0.3.0/32", "10.0.3.255/32",
-	"10.0.4.0/29", "10.0.5.255-10.0.6.0", "10.0.7.7/32",
-	"fc00::/126", "fc00::10-fc00::12", "fc00:1::/127", "fc00:2::5/128",
-}
-
-var allocBlocksBig = []string{
-	"fc00:a::/64", "fc00:b::/48", "fc00:c::/66", "fc00:d::/67", "10.8.0.0/16", "10.9.0.0/23", "10.10.0.128/25",
-	"10.11.0.0/25", "fc00:e::/96", "fc00:f::-fc00:f::ffff:ffff:ffff:ffff", "10.12.0.0-10.12.3.255",
-}
-
-func allocNamespaces() []corev1.Namespace {
-	mk := func(n string, l map[string]string) corev1.Namespace {
-		return corev1.Namespace{ObjectMeta: metav1.ObjectMeta{Name: n, Labels: l}}
-	}
-	return []corev1.Namespace{mk("ns1", map[string]string{"team": "a"}), mk("ns2", map[string]string{"team": "b"}), mk("ns3", nil)}
-}
-
-type allocUniverse struct {
-	pools []metallbv1beta1.IPAddressPool
-	nss   []corev1.Namespace
-}
-
-// allocGenPools cuts 1..4 pools from the block palettes (every block used at most once).
-func allocGenPools(r *vfRand, withBig bool, names []string) []metallbv1beta1.IPAddressPool {
-	blocks := vfShuffled(r, allocBlocksSmall)
-	if withBig {
-		big := vfShuffled(r, allocBlocksBig)
-		blocks = append(big[:r.Range(1, 4)], blocks...)
-		vfShuffle(r, blocks)
-	}
-	n := r.Range(1, len(names))
-	var out []metallbv1beta1.IPAddressPool
-	bi := 0
-	for i := 0; i < n && bi < len(blocks); i++ {
-		p := metallbv1beta1.IPAddressPool{ObjectMeta: metav1.ObjectMeta{Name: names[i], Namespace: "metallb-system"}}
-		k := vfPick(r, []int{1, 1, 2, 2, 3})
-		for j := 0; j < k && bi < len(blocks); j++ {
-			p.Spec.Addresses = append(p.Spec.Addresses, blocks[bi])
-			bi++
-		}
-		p.Spec.AvoidBuggyIPs = r.Chance(1, 3)
-		if r.Chance(1, 4) {
-			p.Spec.AutoAssign = ptr.To(false)
-		}
-		if r.Chance(1, 2) {
-			at := &metallbv1beta1.ServiceAllocation{Priority: vfPick(r, []int{0, 0, 1, 2, 3})}
-			switch r.Intn(6) {
-			case 0:
-				at.Namespaces = vfSubset(r, []string{"ns1", "ns2", "ns3"}, 1, 2)
-			case 1:
-				at.NamespaceSelectors = []metav1.LabelSelector{{MatchLabels: map[string]string{"team": vfPick(r, []string{"a", "b"})}}}
-			case 2:
-				at.ServiceSelectors = []metav1.LabelSelector{{MatchLabels: map[string]string{"tier": vfPick(r, []string{"web", "db"})}}}
-			case 3:
-				at.Namespaces = []string{vfPick(r, []string{"ns1", "ns2"})}
-				at.ServiceSelectors = []metav1.LabelSelector{{MatchLabels: map[string]string{"tier": "web"}}}
-			case 4:
-				// priority only: pinned to every service
-			default:
-				at.Namespaces = []string{"ns1", "ns2", "ns3"}
-			}
-			p.Spec.AllocateTo = at
-		}
-		out = append(out, p)
-	}
-	return out
-}
 
 type allocSvc struct {
 	key  string
@@ -359,11 +286,11 @@ func (e *allocEngine) step(i int) {
 		var crs []metallbv1beta1.IPAddressPool
 		switch r.Intn(4) {
 		case 0: // brand new layout
-			crs = allocGenPools(r, e.big, []string{"p1", "p2", "p3", "p4"})
+			crs = vfGenPools(r, e.big, []string{"p1", "p2", "p3", "p4"})
 		case 1: // rename / re-group: same blocks, other names or merged
-			crs = allocRegroup(r, e.poolCR)
+			crs = vfRegroupPools(r, e.poolCR)
 		case 2: // flag flips
-			crs = allocFlip(r, e.poolCR)
+			crs = vfFlipPools(r, e.poolCR)
 		default: // drop one pool
 			crs = append([]metallbv1beta1.IPAddressPool(nil), e.poolCR...)
 			if len(crs) > 1 {
@@ -372,74 +299,10 @@ func (e *allocEngine) step(i int) {
 			}
 		}
 		ok := e.setPools(crs)
-		e.c.Logf("%d: SetPools ok=%v %s", i, ok, allocPoolDump(crs))
+		e.c.Logf("%d: SetPools ok=%v %s", i, ok, vfPoolDump(crs))
 		e.c.Count("op:SetPools")
 	}
 	e.afterStep(i)
-}
-
-func allocPoolDump(crs []metallbv1beta1.IPAddressPool) string {
-	var parts []string
-	for _, p := range crs {
-		at := ""
-		if p.Spec.AllocateTo != nil {
-			at = fmt.Sprintf(" allocTo{prio=%d ns=%v nssel=%d svcsel=%d}", p.Spec.AllocateTo.Priority, p.Spec.AllocateTo.Namespaces, len(p.Spec.AllocateTo.NamespaceSelectors), len(p.Spec.AllocateTo.ServiceSelectors))
-		}
-		aa := true
-		if p.Spec.AutoAssign != nil {
-			aa = *p.Spec.AutoAssign
-		}
-		parts = append(parts, fmt.Sprintf("%s%v avoid=%v auto=%v%s", p.Name, p.Spec.Addresses, p.Spec.AvoidBuggyIPs, aa, at))
-	}
-	return strings.Join(parts, " | ")
-}
-
-func allocRegroup(r *vfRand, crs []metallbv1beta1.IPAddressPool) []metallbv1beta1.IPAddressPool {
-	var all []string
-	for _, p := range crs {
-		all = append(all, p.Spec.Addresses...)
-	}
-	names := vfShuffled(r, []string{"p1", "p2", "p3", "p4", "q1", "q2"})
-	n := r.Range(1, 3)
-	out := make([]metallbv1beta1.IPAddressPool, n)
-	for i := range out {
-		out[i] = metallbv1beta1.IPAddressPool{ObjectMeta: metav1.ObjectMeta{Name: names[i], Namespace: "metallb-system"}}
-	}
-	for i, a := range all {
-		k := i % n
-		if r.Chance(1, 3) {
-			k = r.Intn(n)
-		}
-		out[k].Spec.Addresses = append(out[k].Spec.Addresses, a)
-	}
-	var res []metallbv1beta1.IPAddressPool
-	for _, p := range out {
-		if len(p.Spec.Addresses) > 0 {
-			res = append(res, p)
-		}
-	}
-	return res
-}
-
-func allocFlip(r *vfRand, crs []metallbv1beta1.IPAddressPool) []metallbv1beta1.IPAddressPool {
-	out := make([]metallbv1beta1.IPAddressPool, len(crs))
-	for i := range crs {
-		out[i] = *crs[i].DeepCopy()
-		if r.Chance(1, 2) {
-			out[i].Spec.AvoidBuggyIPs = !out[i].Spec.AvoidBuggyIPs
-		}
-		if r.Chance(1, 3) {
-			out[i].Spec.AutoAssign = ptr.To(r.Bool())
-		}
-		if r.Chance(1, 3) {
-			if out[i].Spec.AllocateTo == nil {
-				out[i].Spec.AllocateTo = &metallbv1beta1.ServiceAllocation{Priority: r.Intn(3), Namespaces: []string{vfPick(r, []string{"ns1", "ns2"})}}
-			} else {
-				out[i].Spec.AllocateTo = nil
-			}
-		}
-	}
-	return out
 }
 
 func (e *allocEngine) unchangedOnError(op string, pre VerifSnapshot) {
@@ -604,35 +467,6 @@ func (e *allocEngine) probeReleased(s *allocSvc, pre VerifSnapshot) {
 	}
 }
 
-func allocSnapDiff(a, b VerifSnapshot, ignoreCounters bool) string {
-	type f struct {
-		name string
-		x, y any
-	}
-	fs := []f{
-		{"allocated", a.Allocated, b.Allocated}, {"sharingKeyForIP", a.SharingKeyForIP, b.SharingKeyForIP},
-		{"portsInUse", a.PortsInUse, b.PortsInUse}, {"servicesOnIP", a.ServicesOnIP, b.ServicesOnIP},
-		{"poolIPsInUse", a.PoolIPsInUse, b.PoolIPsInUse}, {"poolIPV4InUse", a.PoolIPV4InUse, b.PoolIPV4InUse},
-		{"poolIPV6InUse", a.PoolIPV6InUse, b.PoolIPV6InUse},
-	}
-	if !ignoreCounters {
-		fs = append(fs, f{"counters", a.Counters, b.Counters})
-	}
-	for _, x := range fs {
-		if !reflect.DeepEqual(x.x, x.y) {
-			return fmt.Sprintf("%s: %v != %v", x.name, x.x, x.y)
-		}
-	}
-	return ""
-}
-
-func allocDiffField(d string) string {
-	if i := strings.Index(d, ":"); i > 0 {
-		return d[:i]
-	}
-	return d
-}
-
 // afterStep runs the step monitors on the allocator's memory.
 func (e *allocEngine) afterStep(i int) {
 	snap := e.a.VerifSnapshot()
@@ -646,208 +480,45 @@ func (e *allocEngine) afterStep(i int) {
 	}
 }
 
-func (e *allocEngine) checkExclusivity(snap VerifSnapshot) {
-	byIP := map[string][]string{}
-	for svc, al := range snap.Allocated {
-		for _, ip := range al.IPs {
-			byIP[ip] = append(byIP[ip], svc)
-		}
+// allocSnap converts the in-package snapshot to the shared monitor type.
+func allocSnap(v VerifSnapshot) vfSnap {
+	s := vfSnap{Allocated: map[string]vfSnapAlloc{}, SharingKeyForIP: v.SharingKeyForIP, PortsInUse: v.PortsInUse, ServicesOnIP: v.ServicesOnIP,
+		PoolIPsInUse: v.PoolIPsInUse, PoolIPV4InUse: v.PoolIPV4InUse, PoolIPV6InUse: v.PoolIPV6InUse, PoolNames: v.PoolNames, Counters: map[string][4]int64{}}
+	for k, a := range v.Allocated {
+		s.Allocated[k] = vfSnapAlloc{Pool: a.Pool, IPs: a.IPs, Ports: a.Ports, SharingKey: a.SharingKey, BackendKey: a.BackendKey}
 	}
-	shared := false
-	for _, ip := range vfSortedKeys(byIP) {
-		hs := byIP[ip]
-		sort.Strings(hs)
-		e.c.Eval()
-		if len(hs) >= 2 {
-			shared = true
-			var desc []string
-			for _, h := range hs {
-				al := snap.Allocated[h]
-				desc = append(desc, fmt.Sprintf("%s/%s/%v", al.SharingKey, al.BackendKey, al.Ports))
-			}
-			e.c.Nontrivial("share:" + strings.Join(desc, "+"))
-		}
-		for x := 0; x < len(hs); x++ {
-			for y := x + 1; y < len(hs); y++ {
-				a, b := snap.Allocated[hs[x]], snap.Allocated[hs[y]]
-				why := ""
-				switch {
-				case a.SharingKey == "" || b.SharingKey == "":
-					why = "no-sharing-key"
-				case a.SharingKey != b.SharingKey:
-					why = "different-sharing-keys"
-				case a.BackendKey != b.BackendKey:
-					why = "different-backends"
-				default:
-					for _, p := range a.Ports {
-						for _, q := range b.Ports {
-							if p == q {
-								why = "overlapping-ports"
-							}
-						}
-					}
-				}
-				if why != "" {
-					e.c.Violation("exclusivity:"+why, fmt.Sprintf("address %s is held by %s (key %q backend %q ports %v) and %s (key %q backend %q ports %v)",
-						ip, hs[x], a.SharingKey, a.BackendKey, a.Ports, hs[y], b.SharingKey, b.BackendKey, b.Ports), nil)
-				}
-				// spec-level reading through the recorded Service objects
-				ra, rb := e.recorded[hs[x]], e.recorded[hs[y]]
-				if ra != nil && rb != nil {
-					qa, qb := vfSvcRequirement(ra), vfSvcRequirement(rb)
-					if !vfShareOK(&qa, &qb) {
-						e.c.Violation("share:"+vfShareWhyNot(&qa, &qb), fmt.Sprintf("address %s shared by %s and %s whose specs may not share", ip, hs[x], hs[y]), nil)
-					}
-				}
-			}
-		}
-		// coherence of the four maps for this address
-		want := map[string]string{}
-		for _, h := range hs {
-			for _, p := range snap.Allocated[h].Ports {
-				want[p] = h
-			}
-		}
-		if !reflect.DeepEqual(want, mapOrEmpty(snap.PortsInUse[ip])) && len(hs) > 0 {
-			// overlapping ports are reported above; report map incoherence only when owners are unambiguous
-			e.c.Violation("incoherent:portsInUse", fmt.Sprintf("address %s: portsInUse=%v but holders declare %v", ip, snap.PortsInUse[ip], want), nil)
-		}
-		if !reflect.DeepEqual(hs, snap.ServicesOnIP[ip]) {
-			e.c.Violation("incoherent:servicesOnIP", fmt.Sprintf("address %s: servicesOnIP=%v but holders are %v", ip, snap.ServicesOnIP[ip], hs), nil)
-		}
-		if k, ok := snap.SharingKeyForIP[ip]; !ok {
-			e.c.Violation("incoherent:sharingKeyForIP-missing", fmt.Sprintf("address %s held by %v has no recorded sharing key", ip, hs), nil)
-		} else {
-			for _, h := range hs {
-				al := snap.Allocated[h]
-				if len(hs) > 1 && (al.SharingKey != k[0] || al.BackendKey != k[1]) {
-					e.c.Violation("incoherent:sharingKeyForIP", fmt.Sprintf("address %s records key %v but holder %s has (%q,%q)", ip, k, h, al.SharingKey, al.BackendKey), nil)
-				}
-			}
-		}
+	for k, c := range v.Counters {
+		s.Counters[k] = [4]int64{c.AssignedIPv4, c.AssignedIPv6, c.AvailableIPv4, c.AvailableIPv6}
 	}
-	for ip := range snap.ServicesOnIP {
-		if len(byIP[ip]) == 0 {
-			e.c.Violation("incoherent:ghost-servicesOnIP", fmt.Sprintf("address %s has servicesOnIP=%v but nobody holds it", ip, snap.ServicesOnIP[ip]), nil)
-		}
-	}
-	for ip := range snap.PortsInUse {
-		if len(byIP[ip]) == 0 {
-			e.c.Violation("incoherent:ghost-portsInUse", fmt.Sprintf("address %s has portsInUse=%v but nobody holds it", ip, snap.PortsInUse[ip]), nil)
-		}
-	}
-	for ip := range snap.SharingKeyForIP {
-		if len(byIP[ip]) == 0 {
-			e.c.Violation("incoherent:ghost-sharingKey", fmt.Sprintf("address %s keeps a sharing key but nobody holds it", ip), nil)
-		}
-	}
-	if shared {
-		e.c.Count("step-checks-with-shared-address")
-	}
+	return s
 }
 
-func mapOrEmpty(m map[string]string) map[string]string {
-	if m == nil {
-		return map[string]string{}
+func allocSnapDiff(a, b VerifSnapshot, ignoreCounters bool) string {
+	return vfSnapDiff(allocSnap(a), allocSnap(b), ignoreCounters)
+}
+
+func (e *allocEngine) checkExclusivity(snap VerifSnapshot) {
+	rec := map[string]*vfSvcReq{}
+	for k, o := range e.recorded {
+		r := vfSvcRequirement(o)
+		rec[k] = &r
 	}
-	return m
+	vfCheckExclusivity(e.c, allocSnap(snap), rec)
 }
 
 func (e *allocEngine) checkAccounting(snap VerifSnapshot) {
-	// (i) equals what a fresh allocator would rebuild
-	fresh := e.a.VerifRebuild().VerifSnapshot()
-	e.c.Eval()
-	if d := allocSnapDiff(snap, fresh, false); d != "" {
-		e.c.Violation("rebuild-differs:"+allocDiffField(d), "allocator bookkeeping differs from a fresh rebuild of the surviving assignments: "+d, nil)
-	}
-	if len(snap.ServicesOnIP) > 0 {
-		for _, l := range snap.ServicesOnIP {
-			if len(l) > 1 {
-				e.c.Count("rebuild-compared-with-shared-address")
-				break
-			}
-		}
-	}
-	// (ii) counters
-	for _, pn := range snap.PoolNames {
-		p := e.model[pn]
-		if p == nil {
-			continue
-		}
-		ctr := e.a.CountersForPool(pn)
-		used4, used6 := map[string]bool{}, map[string]bool{}
-		for _, al := range snap.Allocated {
-			for _, ip := range al.IPs {
-				if !p.Contains(ip) {
-					continue
-				}
-				if _, f, _ := vfCanonIP(ip); f == 4 {
-					used4[ip] = true
-				} else {
-					used6[ip] = true
-				}
-			}
-		}
-		layout := allocLayoutClass(p)
-		e.c.Eval()
-		e.c.Distinct("pool-layouts", strings.Join(p.Strs, ";")+fmt.Sprint(p.AvoidBuggy))
-		e.c.Count("counter-checks:" + layout)
-		e.c.Nontrivial(fmt.Sprintf("%v|%v|%d|%d", p.Strs, p.AvoidBuggy, len(used4), len(used6)))
-		if ctr.AssignedIPv4 < 0 || ctr.AssignedIPv6 < 0 || ctr.AvailableIPv4 < 0 || ctr.AvailableIPv6 < 0 {
-			e.c.Violation("counters:negative:"+layout, fmt.Sprintf("pool %s %v avoidBuggy=%v reports %+v", pn, p.Strs, p.AvoidBuggy, ctr), nil)
-			continue
-		}
-		if ctr.AssignedIPv4 != int64(len(used4)) || ctr.AssignedIPv6 != int64(len(used6)) {
-			e.c.Violation("counters:assigned-wrong", fmt.Sprintf("pool %s reports assigned v4=%d v6=%d but %d / %d distinct addresses are in use", pn, ctr.AssignedIPv4, ctr.AssignedIPv6, len(used4), len(used6)), nil)
-		}
-		for _, fam := range []int{4, 6} {
-			exact, astro := p.UsableCount(fam)
-			got := ctr.AssignedIPv4 + ctr.AvailableIPv4
-			if fam == 6 {
-				got = ctr.AssignedIPv6 + ctr.AvailableIPv6
-			}
-			okExact := exact.IsInt64() && exact.Int64() == got
-			okSat := astro && got == math.MaxInt64
-			if !exact.IsInt64() && !astro {
-				okSat = got == math.MaxInt64
-			}
-			if !okExact && !okSat {
-				e.c.Violation("counters:total-wrong:"+layout, fmt.Sprintf("pool %s %v avoidBuggy=%v family %d: assigned+available=%d, usable addresses=%s (astronomical=%v)", pn, p.Strs, p.AvoidBuggy, fam, got, exact, astro), nil)
-			}
-		}
-	}
-}
-
-func allocLayoutClass(p *vfMPool) string {
-	cls := "plain"
-	for _, s := range p.Strs {
-		switch {
-		case strings.HasPrefix(s, "::ffff:"):
-			return "ipv4-mapped"
-		case strings.HasSuffix(s, "/64") || strings.HasSuffix(s, "/48") || strings.HasSuffix(s, "/66") || strings.Contains(s, "ffff:ffff:ffff:ffff"):
-			cls = "astronomical-ipv6"
-		case (strings.HasSuffix(s, ".0/32") || strings.HasSuffix(s, ".255/32")) && p.AvoidBuggy && cls == "plain":
-			cls = "single-buggy-address"
-		case strings.HasSuffix(s, "/31") || strings.HasSuffix(s, "/32") || strings.HasSuffix(s, "/127") || strings.HasSuffix(s, "/128"):
-			if cls == "plain" {
-				cls = "tiny-block"
-			}
-		}
-	}
-	if cls == "astronomical-ipv6" && len(p.Strs) > 1 {
-		cls = "astronomical-ipv6+other"
-	}
-	return cls
+	vfCheckRebuild(e.c, allocSnap(snap), allocSnap(e.a.VerifRebuild().VerifSnapshot()))
+	vfCheckCounters(e.c, allocSnap(snap), e.model)
 }
 
 func allocRun(t *testing.T, prop string, mon allocMonitors, sizes vfSizes, rule string) {
 	vfMain(t, prop, sizes, rule, func(c *vfCase) {
-		e := &allocEngine{c: c, r: c.R, mon: mon, nss: allocNamespaces(), recorded: map[string]*corev1.Service{}}
+		e := &allocEngine{c: c, r: c.R, mon: mon, nss: vfGenNamespaces(), recorded: map[string]*corev1.Service{}}
 		e.a = New(func(string) { e.cbCount++ })
 		e.big = mon.c11 && c.R.Chance(1, 2)
-		for !e.setPools(allocGenPools(c.R, e.big, []string{"p1", "p2", "p3", "p4"})) {
+		for !e.setPools(vfGenPools(c.R, e.big, []string{"p1", "p2", "p3", "p4"})) {
 		}
-		c.Logf("pools: %s", allocPoolDump(e.poolCR))
+		c.Logf("pools: %s", vfPoolDump(e.poolCR))
 		n := c.R.Range(3, 6)
 		for i := 0; i < n; i++ {
 			e.svcs = append(e.svcs, allocGenSvc(c.R, i+1))
